@@ -40,7 +40,7 @@ ASSUMPTIONS = [
     'hand-derived Excel facts)',
 ]
 
-VALS_SMALL = (0, 2, 3, 5)       # 0: a zero factor must not hide an error
+VALS_SMALL = (0, 2, 3, 5, 0.57)  # 0: a zero factor must not hide an error; 57*0.01 is not 0.57
 VECTORS = ((2, 3, 5, 7, 11, 13), (7, 5, 3, 2, 11, 4), (0.5, 4, 3, 2, 8, 5),
            (0, 3, 0, 2, 5, 0),
            # tiny but non-zero divisors are not zero
@@ -48,7 +48,7 @@ VECTORS = ((2, 3, 5, 7, 11, 13), (7, 5, 3, 2, 11, 4), (0.5, 4, 3, 2, 8, 5),
            # fractional exponents: a negated base has no real power
            (4, 0.5, 9, 1.5, 2, 0.5),
            # x*0.01 is not x/100 for these
-           (57, 3, 115, 7, 29, 2))
+           (3, 0.57, 7, 2, 1.15, 5))
 
 AT = 'Sheet1!Z1'
 
@@ -57,6 +57,10 @@ RENDERINGS = (
     ('min-lit', 'lit', {}, ()),
     ('min-ref', 'ref', {}, ('leaf:ref',)),
     ('min-mixed', 'mixed', {}, ('lit:percent', 'lit:sci')),
+    # the same literals with a blank before, or parentheses under, the
+    # percent sign: the same number, bit for bit
+    ('blankpct-mixed', 'mixed-blank', {}, ('lit:percent', 'ws:percent')),
+    ('parenpct-mixed', 'mixed-paren', {}, ('lit:percent', 'paren:percent')),
     # every leaf is a reference followed by a percent sign (cell = 100 * v):
     # % binds tighter than every binary operator, so the leaf stays atomic
     ('min-refpct', 'refpct', {}, ('leaf:ref', 'pct:on-reference')),
@@ -79,9 +83,17 @@ def leaf_fn(spelling, vec):
         return exprs.cellref
     if spelling == 'refpct':
         return lambda i: exprs.cellref(i) + '%'
-    if spelling == 'mixed':
+    if spelling in ('mixed', 'mixed-blank', 'mixed-paren'):
+        def pct(v):
+            t = exprs.percent(v)
+            if spelling == 'mixed-blank':
+                return t[:-1] + ' %'          # 57 %
+            if spelling == 'mixed-paren':
+                return '(' + t[:-1] + ')%'    # (57)%
+            return t
+
         def f(i):
-            return (exprs.plain, exprs.percent, exprs.sci)[i % 3](vec[i])
+            return (exprs.plain, pct, exprs.sci)[i % 3](vec[i])
         return f
     raise AssertionError(spelling)
 
@@ -169,7 +181,8 @@ def run_case(tree, vec, rnames, ctx):
                 # "redundant parentheses and blanks never change the
                 # result": not even in the last bit
                 if got.startswith('num:'):
-                    w = first_by_family.setdefault(spelling, got)
+                    w = first_by_family.setdefault(spelling.split('-')[0],
+                                                   got)
                     if got != w:
                         ctx.fail(key + '#same-bits',
                                  sorted(set(rtags) | {'metamorphic:exact'}),
@@ -233,6 +246,10 @@ def run_shard(shard, ctx):
     ops = exprs.BINOPS if shard['ops'] == 'all' else exprs.CLASS_REPS
     all_shapes = exprs.shapes(shard['n'], ops)
     rnames = RENDER_FEW if shard['few'] else [r[0] for r in RENDERINGS]
+    if shard['n'] >= 3:
+        # the percent-sign spellings are a matter of one leaf: small trees
+        rnames = [r for r in rnames
+                  if r not in ('blankpct-mixed', 'parenpct-mixed')]
     for s in all_shapes[shard['lo']:shard['hi']]:
         tree, nleaves = exprs.number_leaves(s)
         for vec in vectors_for(shard['n'], nleaves):
